@@ -46,7 +46,7 @@ pub fn gen(rng: &mut Rng, tier: &str) -> Vec<Line> {
       v.push(big_wallet([1u64, 2, 5, 3][i % 4], nc, (i as u64 + 2) % 3, i % 2 == 1));
     }
   } else {
-    v.push(big_wallet(4, 51, 0, false));
+    // (send amount with 51 inscribed outputs is corpus/C23/batch_boundary_51.txt, which always runs)
     v.push(big_wallet(0, 101, 2, false));
     v.push(big_wallet(4, 75, 1, true));
   }
